@@ -338,3 +338,88 @@ def s12d_env_separator(ctx):
     if n == 0:
         r.note("no config::Environment source with a separator: nested settings cannot be named in the environment at all")
     return r
+
+
+# ---------------------------------------------------------------------------------------------
+# N2b: the mapped reader refreshes its mapping for every segment that ENDS beyond it
+
+
+def n2b_remap_guard(ctx):
+    r = RuleResult(
+        "N2b",
+        "a record that was appended after the reader mapped the file is still found: in LogReader (at / copy_raw and what they share) the file is mapped again either unconditionally or under a test that compares the END of the requested segment — a value that depends on both `pos` and `len` — with the length of the current mapping, on the side `end > mapped length` (or a superset of it). A test on the start alone refreshes too rarely: a reader that mapped the active file between the two write calls of one large record sees the start inside its mapping, does not refresh, and reports an acknowledged record as being beyond the end of the file (the no-panic half of this is N2)",
+        floor=1,
+    )
+    prog = ctx.prog
+    fam = [b for b in shipped_bodies(prog) if strip_generics(b.root).startswith("storage::bitcask::log::LogReader::") and not strip_generics(b.root).endswith("::new")]
+    if not fam:
+        r.unrec("storage::bitcask::log::LogReader", "methods", "src/storage/bitcask/log.rs", "none found")
+        return r
+    sites = []
+    for b in fam:
+        for bi, t in b.calls():
+            if bi in b.live_blocks() and not b.blocks[bi]["cleanup"] and re.search(r"^memmap2::(MmapOptions|Mmap)::map(_copy_read_only|_raw)?$", strip_generics(t.get("callee")) or ""):
+                sites.append((b, bi))
+    if not sites:
+        r.bad("storage::bitcask::log::LogReader", "the mapping is refreshed somewhere on the read path", "src/storage/bitcask/log.rs", "no method of LogReader other than new() maps the file: a file that grew after it was mapped is read through the old mapping for ever")
+        return r
+
+    def mentions_param(b, o, name):
+        return bool(origin_mentions(o, lambda y: y == ("arg", name)))
+
+    def is_maplen(o):
+        return bool(origin_mentions(o, lambda y: (y[0] == "call" and (y[1].endswith("slice::len") or y[1].endswith("::len"))))) and "mmap" in origin_str(o)
+
+    for b, bi in sites:
+        f = fam_name(b)
+        rets = [x for x in b.live_blocks() if b.blocks[x]["term"]["k"] == "return" and not b.blocks[x]["cleanup"]]
+        ctrl = []
+        for s in sorted(b.live_blocks()):
+            if b.blocks[s]["cleanup"]:
+                continue
+            info = b.switch_info(s)
+            if not info or info["kind"] != "bool":
+                continue
+            if bi not in reach(b, [s]):
+                continue
+            sides = {}
+            for dst, labels in info["arms"].items():
+                rs = reach(b, [dst])
+                sides[dst] = (bi in rs, any(x in reach(b, [dst], blocked_blocks=(bi,)) for x in rets))
+            to = [d for d, (hits, _) in sides.items() if hits]
+            by = [d for d, (hits, bypass) in sides.items() if not hits and bypass]
+            if len(to) == 1 and by:
+                ctrl.append((s, info, to[0]))
+        if not ctrl:
+            r.ok(f, "the file is mapped again unconditionally", where(b, bi), "no test decides whether this call happens")
+            continue
+        for s, info, to in ctrl:
+            cmp, neg = bool_switch_comparison(b, s)
+            if cmp is None:
+                r.unrec(f, "test that guards the re-mapping", where(b, s), "not a comparison: %s" % origin_str(info["on"])[:100])
+                continue
+            op, lhs, rhs = cmp[1], cmp[2], cmp[3]
+            val_to = info["arms"][to][0]  # the switch value on the edge towards the re-mapping
+            holds = (val_to is True) != neg  # does the comparison hold on that edge?
+            if not holds:
+                op = {"Gt": "Le", "Ge": "Lt", "Lt": "Ge", "Le": "Gt", "Eq": "Ne", "Ne": "Eq"}[op]
+            if is_maplen(rhs) and not is_maplen(lhs):
+                x = lhs
+            elif is_maplen(lhs) and not is_maplen(rhs):
+                x = rhs
+                op = {"Gt": "Lt", "Ge": "Le", "Lt": "Gt", "Le": "Ge", "Eq": "Eq", "Ne": "Ne"}[op]
+            else:
+                r.unrec(f, "test that guards the re-mapping", where(b, s), "neither side is the length of the mapping: %s" % origin_str(cmp)[:100])
+                continue
+            # now: the file is re-mapped when  x <op> mapped length
+            xo = expand(prog, x)
+            both = all(mentions_param(b, xo, p) or mentions_param(b, x, p) for p in ("len", "pos"))
+            good_dir = op in ("Gt", "Ge", "Ne")
+            ok = both and good_dir
+            why = "re-mapped when %s %s mapped length" % (origin_str(x)[:60], op)
+            if not both:
+                why += " — the compared value does not depend on both `pos` and `len`, so it is not the end of the segment: a segment that starts inside the mapping and ends beyond it is looked up in the stale mapping and reported as beyond the end of the file"
+            elif not good_dir:
+                why += " — the test refreshes when the segment is INSIDE the mapping"
+            r.add(f, "the re-mapping is decided by the segment's end against the mapped length", ok, where(b, s), why)
+    return r
